@@ -18,10 +18,11 @@ import (
 // fails nondeterministically.
 type vService struct {
 	types.ServiceKeeper
-	startFails bool
-	started    []string
-	bindings   *vStore  // the bindings of the random service, as the service module's iterator yields them
-	chosen     []string // providers handed to CreateRequestContext
+	startFails  bool
+	started     []string
+	bindings    *vStore  // the bindings of the random service, as the service module's iterator yields them
+	chosen      []string // providers handed to CreateRequestContext
+	contextGone bool
 }
 
 func (s *vService) RegisterResponseCallback(string, service.ResponseCallback) error { return nil }
@@ -39,7 +40,9 @@ func (s *vService) ServiceBindingsIterator(ctx sdk.Context, name string) storety
 	}
 	return s.bindings.Iterator(nil, nil)
 }
-func (s *vService) GetParams(ctx sdk.Context) servicetypes.Params { return servicetypes.DefaultParams() }
+func (s *vService) GetParams(ctx sdk.Context) servicetypes.Params {
+	return servicetypes.DefaultParams()
+}
 func (s *vService) CreateRequestContext(ctx sdk.Context, serviceName string, providers []sdk.AccAddress, consumer sdk.AccAddress, input string,
 	feeCap sdk.Coins, timeout int64, repeated bool, freq uint64, total int64, state service.RequestContextState, threshold uint32, module string) (tmbytes.HexBytes, error) {
 	for _, p := range providers {
@@ -163,4 +166,111 @@ func VerifC11_RandomProviderChoice() {
 		same = fp1[i] == fp2[i]
 	}
 	verifAssert(same, "a restarted process picks the same providers")
+}
+
+func (s *vService) GetRequestContext(ctx sdk.Context, id tmbytes.HexBytes) (service.RequestContext, bool) {
+	if s.contextGone {
+		return service.RequestContext{}, false
+	}
+	return service.RequestContext{ServiceName: types.ServiceName, ModuleName: types.ModuleName}, true
+}
+
+// C18 (oracle-seeded requests): requested through the keeper (a paused service context is created for one
+// of the bound providers), moved to the oracle table by the begin-block after h+n when its context starts,
+// and fulfilled when - and only when - the seed response arrives: the number is derived from the app hash
+// and time of the block that carries the response, the requester and the provider's seed, is stored under
+// the request's id and the entry disappears from the oracle table.  A failed or timed-out service call
+// (error, no outputs), a vanished context or a state-change notification drops the request without a
+// number; a second callback (duplicate, or a response after the drop) changes nothing.
+func VerifC18_OracleResponse() {
+	verifExpect("fulfilled", "dropped")
+	const h0 = int64(40)
+	e := newVEnv(types.StoreKey, h0)
+	svc := &vService{bindings: &vStore{}}
+	b := servicetypes.ServiceBinding{ServiceName: types.ServiceName, Provider: vAddr(20).String(), Available: true}
+	svc.bindings.Set([]byte{0}, e.cdc.MustMarshal(&b))
+	k := keeper.NewKeeper(e.cdc, e.key, e.bank, svc)
+	alice := vAddr(1)
+	interval := uint64(verifChoice("interval", 2))
+	hdr0 := e.ctx.BlockHeader()
+	hdr0.Time, hdr0.AppHash = time.Unix(1700000000, 0), []byte("app-hash-0")
+	req, err := k.RequestRandom(e.ctx.WithBlockHeader(hdr0).WithTxBytes([]byte("tx-o")), alice, interval, true, nil)
+	verifAssert(err == nil, "an oracle-seeded request is accepted when a provider is bound")
+	verifAssert(len(svc.chosen) == 1 && svc.chosen[0] == vAddr(20).String(), "the service context addresses a bound provider")
+	ctxID := tmbytes.HexBytes(bytes.Repeat([]byte{7}, 32))
+	verifAssert(req.Oracle && req.ServiceContextID == ctxID.String() && req.Consumer == alice.String() && req.Height == h0, "the request records its service context, requester and height")
+	idO := types.GenerateRequestID(req)
+	due := h0 + int64(interval)
+	st := e.store()
+	verifAssert(st.Has(types.KeyRandomRequestQueue(due, idO)), "an oracle-seeded request made at h with interval n is queued under h+n")
+	// the block after h+n starts the context
+	hdr1 := hdr0
+	hdr1.Height, hdr1.Time = due+1, time.Unix(1700000100, 0)
+	BeginBlocker(e.ctx.WithBlockHeader(hdr1), k)
+	_, eo := k.GetOracleRandRequest(e.ctx, ctxID)
+	verifAssert(eo == nil && !st.Has(types.KeyRandomRequestQueue(due, idO)) && len(svc.started) == 1 && svc.started[0] == ctxID.String(), "the block after h+n starts the service context and moves the request to the oracle table")
+	_, er0 := k.GetRandom(e.ctx, idO)
+	verifAssert(er0 != nil, "no number exists before the seed response arrives")
+	// the block that carries the outcome of the service call
+	now := verifInt64("blockTime")
+	verifAssume(now > 0 && now < 1<<40)
+	hdr2 := hdr0
+	hdr2.Height, hdr2.Time, hdr2.AppHash = due+3, time.Unix(now, 0), []byte("app-hash-2")
+	if verifChoice("emptyAppHash", 2) == 1 {
+		hdr2.AppHash = nil
+	}
+	ctx := e.ctx.WithBlockHeader(hdr2).WithHeaderHash([]byte("hash-of-the-block"))
+	seedHex := []string{"00000000000000000000000000000000000000000000000000000000000000aa", "ffeeddccbbaa99887766554433221100ffeeddccbbaa99887766554433221100"}[verifChoice("seed", 2)]
+	good := `{"header":{},"body":{"seed":"` + seedHex + `"}}`
+	other := `{"header":{},"body":{"seed":"1111111111111111111111111111111111111111111111111111111111111111"}}`
+	outcome := verifChoice("outcome", 5)
+	panicked, what := verifCatch(func() {
+		switch outcome {
+		case 0: // the provider answered
+			k.HandlerResponse(ctx, ctxID, []string{good}, nil)
+		case 1: // the call failed or timed out: threshold not met
+			k.HandlerResponse(ctx, ctxID, nil, servicetypes.ErrInvalidResponse)
+		case 2: // an answer arrived but the batch failed all the same
+			k.HandlerResponse(ctx, ctxID, []string{good}, servicetypes.ErrInvalidResponse)
+		case 3: // the context vanished
+			svc.contextGone = true
+			k.HandlerResponse(ctx, ctxID, []string{good}, nil)
+		case 4: // the context was paused or completed before an answer: state-change notification
+			k.HandlerStateChanged(ctx, ctxID, "insufficient balances")
+		}
+	})
+	if panicked {
+		verifPrint(what)
+	}
+	verifAssert(!panicked, "the callbacks never panic")
+	rnd, er := k.GetRandom(ctx, idO)
+	_, eo = k.GetOracleRandRequest(ctx, ctxID)
+	verifAssert(eo != nil, "the request leaves the oracle table with the outcome of its service call")
+	if outcome == 0 {
+		verifCover("fulfilled")
+		verifAssert(er == nil, "the request is fulfilled when the seed response arrives")
+		seed := make([]byte, 32)
+		for i := 0; i < 32; i++ {
+			seed[i] = c18hex(seedHex[2*i])<<4 | c18hex(seedHex[2*i+1])
+		}
+		exp := types.MakePRNG(hdr2.AppHash, now, alice, seed, true).GetRand().FloatString(types.RandPrec)
+		verifAssert(rnd.Value == exp, "the number is derived from the block's app hash and time, the requester and the oracle seed")
+		verifAssert(rnd.Height == due+2 && rnd.RequestTxHash == req.TxHash, "the result is stored under the request's id with its tx hash")
+	} else {
+		verifCover("dropped")
+		verifAssert(er != nil, "a failed, timed-out or abandoned service call yields no number")
+	}
+	// whatever arrives afterwards changes nothing
+	svc.contextGone = false
+	later := ctx.WithBlockHeight(due + 4)
+	k.HandlerResponse(later, ctxID, []string{other}, nil)
+	rnd2, er2 := k.GetRandom(later, idO)
+	verifAssert((er2 == nil) == (er == nil) && rnd2.Value == rnd.Value && rnd2.Height == rnd.Height, "a request is fulfilled at most once; the result reads back unchanged")
+}
+
+func c18hex(c byte) byte {
+	if c >= 'a' {
+		return c - 'a' + 10
+	}
+	return c - '0'
 }
